@@ -29,13 +29,6 @@ pub fn gen_resources(
                 &Expected::from(alias),
                 env,
             );
-            constr.add(
-                "with resource",
-                &Expected::from(resource),
-                &Expected::any(resource.pos),
-                env,
-            );
-
             if let Some(ty) = ty {
                 let ty_exp = Type {
                     name: Name::try_from(ty)?,
